@@ -10,9 +10,9 @@ ID = "C08"
 LEVEL = "exploration"
 
 TEXTS = ["a", "b1", "a.b", "a/b", "a b", "a]b", "a[b", "a(b", "a)b", "a'b",
-         'a"b', "a^b", "a$b", "a%b", "a\\b", "ab c."]
+         'a"b', "a^b", "a$b", "a%b", "a\\b", "ab c.", "a ", " a", " "]
 OPERANDS = ["a", "b1", "a b", "a.b", "a/b", "a]b", "a'b", "a=b", "a!b",
-            "a<b", "a~b", "a%b", "a\\b"]
+            "a<b", "a~b", "a%b", "a\\b", "'a", 'a"', "a ", "it's \"x\""]
 S = "search"
 KW = "keyword"
 
@@ -171,9 +171,10 @@ def check_ast(segs, sep, style, res, source="grid"):
                   "why": type(exc).__name__}, case, "%s" % exc)
         return
     if got2 != want:
-        res.fail({"clause": "2-canonical-string-reparses", "segs": kinds,
+        res.fail({"clause": "2-canonical-string-reparses",
                   "why": "different-segments",
-                  "field": _first_diff(want, got2)}, case,
+                  "field": _first_diff(want, got2),
+                  "shape": shape_of(_diff_seg(want, got2))}, case,
                  "str() = %r\nwant %r\ngot  %r" % (s1, want, got2))
         return
     if s2 != s1:
@@ -328,10 +329,10 @@ def run_shard(shard):
                 res.truncated = True
                 break
             sep = "./"[idx % 2]
-            style = (idx // 2) % 3
+            style = (idx // 2) % 5
             check_ast(segs, sep, style, res)
             if len(segs) == 1 or idx % 7 == 0:
-                check_ast(segs, "./"[(idx + 1) % 2], (style + 1) % 3, res)
+                check_ast(segs, "./"[(idx + 1) % 2], (style + 1) % 5, res)
             if prev is not None and idx % 5 == 0:
                 check_inequality(prev, segs, res)
                 check_inequality(segs, segs, res)
@@ -347,13 +348,13 @@ def _run_hyp(shard, res, dl):
     alpha = "ab1XyZ09_-" + "./ []()'\"^$%\\" + "=!<>~,:+&"
     text = st.text(alphabet=alpha, min_size=1, max_size=6).filter(
         lambda t: "*" not in t)
-    keytext = text.filter(lambda t: t.strip() == t and t[0] not in "&/"
-                          and not t.lstrip("-").isdigit())
+    keytext = text.filter(lambda t: t[0] not in "&/"
+                          and not t.strip().lstrip("-").isdigit())
     methods = st.sampled_from(["EQUALS", "STARTS_WITH", "ENDS_WITH",
                                "CONTAINS", "LESS_THAN", "GREATER_THAN",
                                "LESS_THAN_OR_EQUAL",
                                "GREATER_THAN_OR_EQUAL"])
-    operand = text.filter(lambda t: t.strip() == t)
+    operand = text
     seg = st.one_of(
         keytext.map(lambda t: ("key", t)),
         st.integers(-9, 99).map(lambda i: ("index", i)),
@@ -371,7 +372,7 @@ def _run_hyp(shard, res, dl):
         st.sampled_from([v for v in VOCAB if v[0] == KW]),
     )
     strat = st.tuples(st.lists(seg, min_size=1, max_size=6),
-                      st.sampled_from("./"), st.integers(0, 2))
+                      st.sampled_from("./"), st.integers(0, 4))
 
     def body(value):
         segs, sep, style = value
